@@ -188,20 +188,57 @@ def check_decorations(prog, rep):
                 bad.append("with %s the path draws %s" % (tested, drawn))
     rep.check(not bad and n_paths >= 4, "R14.2", "decoration:both",
               "draw_decorations must draw exactly the strikethrough and the underline rectangle, each iff its colour is set, each with its own colour: %s" % "; ".join(sorted(set(bad))[:3]), at=dd.span, fn=dd.path)
-    # width handed to draw_decorations by draw_string = next.x - position.x
-    ds = prog.method1(STYLE, "draw_string", "embedded_graphics::text::renderer::TextRenderer")
-    org = Origins(ds)
-    ok = False
-    for bi in sorted(org.cfg.live_blocks()):
-        t = ds.body["blocks"][bi]["t"]
-        if t and t["k"] == "call" and t["f"].get("name") == "draw_decorations":
-            w = org.term_args(bi)[1]
-            m = match(w, ("cast", ("bin", "Sub", "?next", ("field", "?pos", 0)), "u32"))
-            ok = m is not None and any(n[0] == "call" and n[1].endswith("draw_string_binary") for n in walk(m["?next"])) \
-                and match(m["?pos"], ("call", "*Sub>::sub", "_", (("param", 3, "position"), "_"))) is not None
-            rep.check(ok, "R14.2", "decoration-width", "decorations must span next.x - position.x (the full text width); found %s" % show(w), at=t.get("sp", ""), fn=ds.path)
-    if not ok:
-        rep.check(False, "R14.2", "decoration-width", "draw_string no longer calls draw_decorations with the text width", status="undecided", at=ds.span, fn=ds.path)
+    # R14.2 must-pass-through: every successful path of draw_string / draw_whitespace that advanced the position has
+    # called draw_decorations(width = advance, position, target); the only paths without it are guarded by "no advance"
+    TR = "embedded_graphics::text::renderer::TextRenderer"
+    P2 = Paths(prog, inline=lambda g: prog.is_new(g))
+    for nm in ("draw_string", "draw_whitespace"):
+        ds = prog.method1(STYLE, nm, TR)
+        bad, n_ok, n_dec = [], 0, 0
+        try:
+            summs = P2.of(ds)
+        except Unsupported as e:
+            rep.check(False, "R14.2", "decoration-width:" + nm, "cannot summarise %s: %s" % (nm, e), status="undecided", at=ds.span, fn=ds.path)
+            continue
+        for sm in summs:
+            if sm.ret is None or not (sm.ret[0] == "agg" and str(sm.ret[1]).endswith("Result::Ok")):
+                continue
+            n_ok += 1
+            decs = [e[1] for e in sm.effects if e[0] == "call" and e[1][1].endswith("::draw_decorations")]
+            if nm == "draw_string":
+                # ret = Ok(next + Point::new(0, offset)); the advance is next.x - position'.x
+                m = match(sm.ret[2][0], ("call", "*Add>::add", "_", ("?next", "_"))) if sm.ret[2] else None
+                if m is None:
+                    bad.append("the returned point is not `next + (0, baseline offset)`: %s" % show(sm.ret, maxd=4))
+                    continue
+                nx = ("field", m["?next"], 0)
+                rel = [f for f in sm.facts if f[0] in ("lt", "le", "eq", "ne") and nx in (f[1], f[2])]
+                pos = [(f[2] if f[1] == nx else f[1]) for f in rel]
+                if decs:
+                    n_dec += 1
+                    for d in decs:
+                        w = d[3][1]
+                        mw = match(w, ("cast", ("bin", "Sub", nx, ("field", "?pos", 0)), "u32"))
+                        if mw is None or mw["?pos"] != d[3][2]:
+                            bad.append("decorations must span next.x - position.x from the same position they are drawn at; found width %s at %s" % (show(w, maxd=4), show(d[3][2], maxd=3)))
+                        elif match(mw["?pos"], ("call", "*Sub>::sub", "_", (("param", 3, "position"), "_"))) is None:
+                            bad.append("decorations must start at the incoming position (minus the baseline offset); found %s" % show(mw["?pos"], maxd=4))
+                elif not any(f[0] in ("le", "lt", "eq") and (f[1] == nx or (f[0] == "eq" and f[2] == nx)) for f in rel):
+                    bad.append("a successful path [%s] returns without drawing the decorations although the text may have advanced" % "; ".join(show_fact(f)[:60] for f in sm.facts[:3]))
+            else:
+                width = ("param", 2, "width")
+                if decs:
+                    n_dec += 1
+                    for d in decs:
+                        if d[3][1] != width:
+                            bad.append("whitespace decorations must span the given width; found %s" % show(d[3][1], maxd=4))
+                elif not any((f[0] == "eq" and width in (f[1], f[2]) and ("const", 0) in (f[1], f[2])) or (f[0] == "le" and f[1] == width and f[2] == ("const", 0))
+                             or (f[0] == "lt" and f[1] == width and f[2] == ("const", 1)) for f in sm.facts):
+                    bad.append("a successful path [%s] returns without drawing the decorations although width != 0" % "; ".join(show_fact(f)[:60] for f in sm.facts[:3]))
+        want = 4 if nm == "draw_string" else 1
+        rep.check(not bad and n_dec >= want and n_ok > n_dec, "R14.2", "decoration-width" if nm == "draw_string" else "decoration-width:" + nm,
+                  "%s: every successful path that advanced must have drawn the decorations over exactly the advance: %s" % (nm, "; ".join(sorted(set(bad))[:2]) or "only %d decorated successful path(s) of %d" % (n_dec, n_ok)),
+                  at=ds.span, fn=ds.path, detail={"ok_paths": n_ok, "decorated": n_dec})
 
 
 def check_roles(prog, rep):
